@@ -787,10 +787,15 @@ package jsonpatch
 //@   modifies region(lazyNode.which), region(lazyNode.doc), region(lazyNode.ary), region(lazyNode.raw), region(partialDoc.obj), region(partialDoc.keys), region(partialDoc.opts), region(partialDoc.self), region(partialArray.nodes), region(partialArray.self), region(elem string), region(elem *lazyNode), region(map map[string]*lazyNode), region(cell int64), region(cell container), region(cell any), region(json.scanner.step), region(json.scanner.err), region(json.scanner.endTop), region(json.scanner.bytes), region(json.scanner.parseState), region(elem int), ghost(BufContent)
 //@   callsite[C03] createObjectMergePatch#1 element-by-element: arg_originalJSON == (*originalDocs)[i] && arg_modifiedJSON == (*modifiedDocs)[i]
 //@   ensures[C03,C16] rejects-ill-formed: !wf(originalJSON) || !wf(modifiedJSON) ==> err != nil && result.0 == nil
+//@   ensures[C03] rejects-elements-that-are-not-objects: wf(originalJSON) && wf(modifiedJSON) && kind(val(bytes(originalJSON))) == KArr && kind(val(bytes(modifiedJSON))) == KArr && jlen(val(bytes(originalJSON))) == jlen(val(bytes(modifiedJSON))) ==> forall j int :: 0 <= j && j < jlen(val(bytes(originalJSON))) && ((kind(elem(val(bytes(originalJSON)), j)) != KObj && kind(elem(val(bytes(originalJSON)), j)) != KNull) || (kind(elem(val(bytes(modifiedJSON)), j)) != KObj && kind(elem(val(bytes(modifiedJSON)), j)) != KNull)) ==> err != nil
+//@   ensures[C03] rejects-null-elements: wf(originalJSON) && wf(modifiedJSON) && kind(val(bytes(originalJSON))) == KArr && kind(val(bytes(modifiedJSON))) == KArr && jlen(val(bytes(originalJSON))) == jlen(val(bytes(modifiedJSON))) ==> forall j int :: 0 <= j && j < jlen(val(bytes(originalJSON))) && (kind(elem(val(bytes(originalJSON)), j)) == KNull || kind(elem(val(bytes(modifiedJSON)), j)) == KNull) ==> err != nil
 //@   ensures[C03] rejects-different-lengths: wf(originalJSON) && wf(modifiedJSON) && kind(val(bytes(originalJSON))) == KArr && kind(val(bytes(modifiedJSON))) == KArr && jlen(val(bytes(originalJSON))) != jlen(val(bytes(modifiedJSON))) ==> err != nil && result.0 == nil
 
 //@   loop 1
 //@   invariant result-is-private: result == nil || fresh(result)
+//@   invariant result-apart: result.arr == 0 || (result.arr != (*originalDocs).arr && result.arr != (*modifiedDocs).arr)
+//@   invariant all-pairs-so-far-are-objects-or-null: 0 <= i && i <= len(*originalDocs) && (forall j int {(*originalDocs)[j]} {(*modifiedDocs)[j]} :: 0 <= j && j < i ==> (kind(val(bytes((*originalDocs)[j]))) == KObj || kind(val(bytes((*originalDocs)[j]))) == KNull) && (kind(val(bytes((*modifiedDocs)[j]))) == KObj || kind(val(bytes((*modifiedDocs)[j]))) == KNull))
+//@   invariant documents-kept: *originalDocs == atentry(*originalDocs) && *modifiedDocs == atentry(*modifiedDocs) && (forall j int {(*originalDocs)[j]} :: 0 <= j && j < len(*originalDocs) ==> (*originalDocs)[j] != nil && allocated((*originalDocs)[j]) && wf((*originalDocs)[j]) && val(bytes((*originalDocs)[j])) == elem(val(bytes(originalJSON)), j)) && (forall j int {(*modifiedDocs)[j]} :: 0 <= j && j < len(*modifiedDocs) ==> (*modifiedDocs)[j] != nil && allocated((*modifiedDocs)[j]) && wf((*modifiedDocs)[j]) && val(bytes((*modifiedDocs)[j])) == elem(val(bytes(modifiedJSON)), j))
 
 //@ func CreateMergePatch
 //@   modifies region(lazyNode.which), region(lazyNode.doc), region(lazyNode.ary), region(lazyNode.raw), region(partialDoc.obj), region(partialDoc.keys), region(partialDoc.opts), region(partialDoc.self), region(partialArray.nodes), region(partialArray.self), region(elem string), region(elem *lazyNode), region(map map[string]*lazyNode), region(cell int64), region(cell container), region(cell any), region(json.scanner.step), region(json.scanner.err), region(json.scanner.endTop), region(json.scanner.bytes), region(json.scanner.parseState), region(elem int), ghost(BufContent)
